@@ -265,32 +265,65 @@ def lazy_arg(p):
     return isinstance(p.value_type, yaqltypes.LazyParameterType)
 
 
-def call_with_canary(fd, pos, fill_idx):
-    """call definition fd through the real dispatch with the canary at visible position pos and filler #fill_idx at the
-    others; -> (outcome text, log)"""
+def candidates(p, fl, ctx):
+    """fillers the declared type of parameter p accepts (so that the call reaches the payload)"""
+    out = []
+    for v in fl:
+        x = v() if (callable(v) and getattr(v, '__name__', '') == '_gen') else v
+        try:
+            if lazy_arg(p):
+                ok = p.value_type.check(E.Constant(x), ctx, ENG)
+            else:
+                ok = p.value_type.check(x, ctx, ENG)
+        except Exception:
+            ok = False
+        if ok:
+            out.append(v)
+    return out or fl
+
+
+WRAPS = ['bare', 'in-list', 'in-pair-list', 'dict-value']
+
+
+def wrap_canary(c, wrap):
+    if wrap == 0:
+        return c
+    if wrap == 1:
+        return (c,)
+    if wrap == 2:
+        return ((c, 1), (2, c))
+    return utils.FrozenDict({'k': c})
+
+
+def call_with_canary(fd, pos, fill_idx, wrap=0):
+    """call definition fd through the real dispatch with the canary at visible position pos and, at the other
+    positions, the (fill_idx)-th filler among those the declared parameter type accepts; -> (outcome text, log)"""
+    import itertools
     params = visible_params(fd)
     canary = Canary()
-    Canary.log = []
     fl = fillers()
+    ctx = ROOT.create_child_context()
     args = []
     for i, p in enumerate(params):
         if i == pos:
-            v = canary
+            v = wrap_canary(canary, wrap)
         else:
-            v = fl[(fill_idx + i) % len(fl)]
+            c = candidates(p, fl, ctx)
+            v = c[(fill_idx + i) % len(c)]
             if callable(v) and getattr(v, '__name__', '') == '_gen':
                 v = v()
         if lazy_arg(p):
-            v = ENG('$') .expression if False else E.Constant(v)      # lazy parameters receive an expression
+            v = E.Constant(v)      # lazy parameters receive an expression
         args.append(v)
-    ctx = ROOT.create_child_context()
+    Canary.log = []
     try:
         if fd.is_method and not fd.is_function:
             res = ctx(fd.name, ENG, receiver=args[0])(*args[1:]) if args else None
         else:
             res = ctx(fd.name, ENG)(*args)
-        res = utils.convert_output_data(res, lambda x: x, ENG) if not isinstance(res, Canary) else 'canary'
-        text = 'ok ' + repr(res)[:300]
+        if utils.is_iterator(res):
+            res = list(itertools.islice(res, 20))       # bounded consumption of lazy results
+        text = 'ok ' + ('canary' if isinstance(res, Canary) else repr(res)[:300])
     except (yexc.NoMatchingFunctionException, yexc.NoMatchingMethodException, yexc.NoFunctionRegisteredException,
             yexc.NoMethodRegisteredException) as e:
         text = 'nomatch'
@@ -299,29 +332,37 @@ def call_with_canary(fd, pos, fill_idx):
     return text, list(Canary.log)
 
 
+import resource
+resource.setrlimit(resource.RLIMIT_AS, (8 << 30, 8 << 30))
 if not H.P('driver'):
     DEFS = definitions()
     LO, HI = H.P('dlo', 0), H.P('dhi', 0)
-    ROWS = [(d, p) for d in range(LO, min(HI, len(DEFS))) for p in range(max(1, len(visible_params(DEFS[d]))))]
+    ROWS = [(d, p, w) for d in range(LO, min(HI, len(DEFS))) for p in range(max(1, len(visible_params(DEFS[d]))))
+            for w in range(len(WRAPS))]
     ROWBOX = [(r,) for r in range(len(ROWS))]
     FILLBOX = [(f,) for f in range(12)]
+    NFILL = H.P('nfill', 3)
 
 
 def sweep_key(fd, pos):
     return 'C07/canary-reached-by/%s/%s#%d' % (fd.name, getattr(fd.payload, '__name__', '?'), pos)
 
 
+def touched(log):
+    return [e for e in log if e[0] == 'item' or (e[0] == 'attr' and not (e[1].startswith('__') and e[1].endswith('__')))]
+
+
 def sweep(r: int, f: int) -> bool:
     """
-    pre: 0 <= r < len(ROWS) and 0 <= f < 12
+    pre: 0 <= r < len(ROWS) and 0 <= f < NFILL
     post: _
     """
     row, fi = ROWBOX[r][0], FILLBOX[f][0]
     with H.NoTracing():
-        d, pos = ROWS[row]
+        d, pos, w = ROWS[row]
         fd = DEFS[d]
-        text, log = call_with_canary(fd, pos, fi)
-        bad = [e for e in log if e[0] == 'item' or (e[0] == 'attr' and not (e[1].startswith('__') and e[1].endswith('__')))]
+        text, log = call_with_canary(fd, pos, fi, w)
+        bad = touched(log)
         ok = (not bad and SECRET not in text) or sweep_key(fd, pos) in KNOWN
     return H.done(ok)
 
@@ -349,12 +390,12 @@ def conditions(tier, seed):
     from vf import param
     saved = dict(param.P)
     nd = len(definitions())
-    step = 24
+    step = 12
     for lo in range(0, nd, step):
         out.append({'name': 'sweep[defs=%d-%d]' % (lo, min(nd, lo + step) - 1), 'func': 'sweep', 'timeout': 300,
-                    'param': {'dlo': lo, 'dhi': lo + step},
-                    'bounds': 'definitions %d..%d of the live registry (%d in total) x every visible position x 12 filler '
-                              'rotations; non-yaqlized canary; selectors only (each path one concrete call)' % (lo, min(nd, lo + step) - 1, nd)})
+                    'param': {'dlo': lo, 'dhi': lo + step, 'nfill': 3 if tier == 'quick' else 12},
+                    'bounds': 'definitions %d..%d of the live registry (%d in total) x every visible position x 4 wrappings of the canary x 3 (quick) / 12 '
+                              '(thorough) type-compatible filler rotations; non-yaqlized canary; selectors only (each path one concrete call)' % (lo, min(nd, lo + step) - 1, nd)})
     for key in sorted(KNOWN):
         if key.startswith('C07/canary-reached-by/'):
             out.append({'name': 'probe[%s]' % key[len('C07/canary-reached-by/'):], 'func': 'probe_known', 'timeout': 60, 'kind': 'probe',
@@ -450,11 +491,11 @@ def replay(cond, args):
                         if [e for e in log if e[0] == 'item' or not e[1].startswith('__')] or SECRET in text:
                             hits.append((text, log))
             return {'reproduced': bool(hits), 'key': cond['param']['probe_key'], 'what': 'canary reached: %r' % (hits[:1],)}
-        d, pos = ROWS[args['r']]
+        d, pos, w = ROWS[args['r']]
         fd = DEFS[d]
-        text, log = call_with_canary(fd, pos, args['f'])
-        bad = [e for e in log if e[0] == 'item' or (e[0] == 'attr' and not (e[1].startswith('__') and e[1].endswith('__')))]
+        text, log = call_with_canary(fd, pos, args['f'], w)
+        bad = touched(log)
         return {'reproduced': bool(bad) or SECRET in text, 'key': sweep_key(fd, pos),
-                'what': 'function %s (%s) with a NON-yaqlized host object in position %d: host members touched %r, outcome %s' % (
-                    fd.name, getattr(fd.payload, '__qualname__', '?'), pos, bad[:4], text[:120])}
+                'what': 'function %s (%s) with a NON-yaqlized host object (%s) in position %d: host members touched %r, outcome %s' % (
+                    fd.name, getattr(fd.payload, '__qualname__', '?'), WRAPS[w], pos, bad[:4], text[:120])}
     return {'reproduced': False, 'error': 'no replay for ' + f}
